@@ -968,14 +968,32 @@ func formatRules(c *Ctx, want map[string]bool) {
 		if fe := c.P.MustFunc(R, "R20b", "casblob.ExtractLogicalSize"); fe != nil {
 			ok16, okSlice, okLE := false, false, false
 			ast.Inspect(fe.Decl.Body, func(m ast.Node) bool {
-				if as, k := m.(*ast.AssignStmt); k && len(as.Lhs) == 1 && exprStr(as.Lhs[0]) == "interesting" && exprStr(as.Rhs[0]) == "16" {
-					ok16 = true
+				// 16 header bytes are read: a constant 16 used as a length (a named constant counts)
+				if e, k := m.(ast.Expr); k {
+					if kv, isC := constInt(info, e); isC && kv == 16 {
+						if _, isSlice := m.(*ast.SliceExpr); !isSlice {
+							ok16 = true
+						}
+					}
 				}
-				if se, k := m.(*ast.SliceExpr); k && exprStr(se.X) == "earlyHeader" && se.Low != nil && exprStr(se.Low) == "8" && se.High == nil {
-					okSlice = true
+				// the value is taken from byte 8 on (to 16, or to the end of the 16-byte buffer)
+				if se, k := m.(*ast.SliceExpr); k && se.Low != nil {
+					if lo, isC := constInt(info, se.Low); isC && lo == 8 {
+						if se.High == nil {
+							okSlice = true
+						} else if hi, isC := constInt(info, se.High); isC && hi == 16 {
+							okSlice = true
+						}
+					}
 				}
-				if call, k := m.(*ast.CallExpr); k && fullCalleeName(info, call) == "encoding/binary.Read" && exprStr(call.Args[1]) == "binary.LittleEndian" && basicName(info.TypeOf(call.Args[2])) == "int64" {
-					okLE = true
+				if call, k := m.(*ast.CallExpr); k {
+					// binary.Read(r, binary.LittleEndian, &int64) or binary.LittleEndian.Uint64(b)
+					if fullCalleeName(info, call) == "encoding/binary.Read" && len(call.Args) == 3 && strings.HasSuffix(exprStr(call.Args[1]), "LittleEndian") && basicName(info.TypeOf(call.Args[2])) == "int64" {
+						okLE = true
+					}
+					if fullCalleeName(info, call) == "encoding/binary.(littleEndian).Uint64" {
+						okLE = true
+					}
 				}
 				return true
 			})
